@@ -472,7 +472,11 @@ class BaseEMSurvey(ObjectBase, ABC):  # pylint: disable=too-many-public-methods
                 f"{type(receivers)} provided."
             )
         self._receivers = receivers
-        self.edit_em_metadata({"Receivers": receivers.uid})
+        entries = {"Receivers": receivers.uid}
+        tx_id = receivers.metadata["EM Dataset"].get("Tx ID property")
+        if tx_id is not None:
+            entries["Tx ID property"] = tx_id
+        self.edit_em_metadata(entries)
 
     @property
     def survey_type(self) -> str | None:
